@@ -253,7 +253,10 @@ func (s *Sim) opLists() string {
 		rcv := s.Ch[l.Ends[1-sd].Chain].Addr(s.R.Intn(users)).String()
 		key := snd + "\x00" + rcv
 		if m.White[key] {
-			ch.InBlock(func(ctx sdk.Context) error { ch.Sim.RateLimitKeeper.RemoveWhitelistedAddressPair(ctx, snd, rcv); return nil })
+			ch.InBlock(func(ctx sdk.Context) error {
+				ch.Sim.RateLimitKeeper.RemoveWhitelistedAddressPair(ctx, snd, rcv)
+				return nil
+			})
 			delete(m.White, key)
 			s.log("chain%d whitelist- %s→%s", chain, shortAddr(snd), shortAddr(rcv))
 			return "wl-del"
@@ -682,7 +685,7 @@ func (s *Sim) opStale() string {
 
 type Profile struct {
 	Send, Forward, Recv, Ack, Timeout, Admin, Lists, Jump, DupUndo, Stale, ToggleRecv, Commit int
-	Plan                                                                                     sendPlan
+	Plan                                                                                      sendPlan
 }
 
 func DefaultProfile() Profile {
